@@ -161,6 +161,14 @@ fn judge_generic<T: Clone + PartialOrd + Debug>(c: &Ctx, l: &mut Local, a: &T, b
         if &cl != i || ikind(&cl) != k {
             bad(c, l, &format!("clone|{}", k), "a clone does not compare equal".into(), json!({"interval": format!("{:?}", i), "clone": format!("{:?}", cl)}));
         }
+        // "compare equal" through the ordering interface as well: Equal, and none of the strict operators
+        l.eval();
+        l.count("copy judged through the ordering operators");
+        let pc = i.partial_cmp(&cl);
+        #[allow(clippy::neg_cmp_op_on_partial_ord)]
+        if pc != Some(std::cmp::Ordering::Equal) || i < &cl || i > &cl || !(i <= &cl) || !(i >= &cl) {
+            bad(c, l, &format!("clone-ordering|{}{}", k, if i.is_degenerate() { "|degenerate" } else { "" }), "an interval and its copy do not compare Equal through partial_cmp / <, >, <=, >=".into(), json!({"interval": format!("{:?}", i), "partial_cmp": format!("{:?}", pc), "<": i < &cl, ">": i > &cl, "<=": i <= &cl, ">=": i >= &cl}));
+        }
     }
     // clone_from into an existing interval of every kind reproduces the source (kind and bounds)
     {
